@@ -5,6 +5,7 @@ import (
 	"fmt"
 	"html"
 	"net/url"
+	"reflect"
 	"strconv"
 	"strings"
 	"sync"
@@ -461,7 +462,7 @@ func run(r *eng.Runner) {
 // string, values that render through String()), under autoescape ON where the statement is about `safe`, and through
 // ApplyFilter where it is about escape.
 type KindCase struct {
-	Kind string `json:"kind"` // safevalue | strptr | stringer | stringer-ptr | named-stringer
+	Kind string `json:"kind"` // plain | safevalue | strptr | stringer | stringer-ptr | named-stringer
 	In   eng.Q  `json:"in"`
 }
 
@@ -480,6 +481,8 @@ func (c *KindCase) Exec(t *eng.T) {
 	in := string(c.In)
 	var v any
 	switch c.Kind {
+	case "plain":
+		v = in
 	case "safevalue":
 		v = pongo2.AsSafeValue(in)
 	case "strptr":
@@ -507,6 +510,11 @@ func (c *KindCase) Exec(t *eng.T) {
 				t.Fail(f+":kind:"+c.Kind, "%s applied to the %s %q gives %q (must hold none of < > \" ' and unescape to the text)", f, c.Kind, in, out.String())
 			}
 		}
+		// written on its own under autoescape on (the default): escaped once, not once by the filter and once more
+		// by the engine
+		if op := px.Render(nil, "{{ v|"+f+" }}", pongo2.Context{"v": v}); op.Failed() || strings.ContainsAny(op.S, "<>\"'") || html.UnescapeString(op.S) != in {
+			t.Fail(f+":template-autoescape-on:"+c.Kind, "{{ v|%s }} under autoescape on with the %s %q renders %s, which does not unescape to the text", f, c.Kind, in, op)
+		}
 		o := px.Render(nil, "{{ v|"+f+"|safe }}", pongo2.Context{"v": v})
 		if o.Failed() || strings.ContainsAny(o.S, "<>\"'") || html.UnescapeString(o.S) != in {
 			t.Fail(f+":kind-template:"+c.Kind, "{{ v|%s|safe }} with the %s %q renders %s", f, c.Kind, in, o)
@@ -523,9 +531,48 @@ func (c *KindCase) Exec(t *eng.T) {
 	}
 }
 
+// SafeIdentCase: `safe` returns its input unchanged - also when the input is not text (the filters behind it see
+// the same number, list, bool or nothing).
+type SafeIdentCase struct {
+	Name string `json:"name"`
+}
+
+func (c *SafeIdentCase) ID() string { return "safe on a non-text value: " + c.Name }
+
+func safeIdentValues() map[string]any {
+	p := 41
+	return map[string]any{"int": 41, "nil": nil, "strings": []string{"a", "b"}, "false": false, "float": 1.5, "map": map[string]int{"k": 1}, "intptr": &p, "anys": []any{1, "x"}, "uint8": uint8(7), "emptylist": []int{}}
+}
+
+func (c *SafeIdentCase) Exec(t *eng.T) {
+	t.Nontrivial()
+	v := safeIdentValues()[c.Name]
+	out, err := pongo2.ApplyFilter("safe", pongo2.AsValue(v), nil)
+	if err != nil {
+		t.Fail("safe:error", "safe(%s) fails: %v", c.Name, err)
+		return
+	}
+	t.Outcome(fmt.Sprintf("%T", out.Interface()))
+	if !reflect.DeepEqual(out.Interface(), v) {
+		t.Fail("safe:changes-input", "ApplyFilter(safe) on the %s %#v returns %#v (%T)", c.Name, v, out.Interface(), out.Interface())
+	}
+	// the same chain with and without safe in the middle (kind-sensitive filters behind it)
+	for _, tail := range []string{"add:1", `join:"&"`, `yesno:"on,off,none"`, `default_if_none:"none"`, "length", "first", "floatformat:2", `default:"dflt"`, "divisibleby:41", "pluralize"} {
+		with := px.Render(nil, "{% autoescape off %}{{ v|safe|"+tail+" }}{% endautoescape %}", pongo2.Context{"v": v})
+		without := px.Render(nil, "{% autoescape off %}{{ v|"+tail+" }}{% endautoescape %}", pongo2.Context{"v": v})
+		if with.Kind() != without.Kind() || with.S != without.S { // (error positions differ by the length of "|safe")
+			t.Fail("safe:changes-input:"+strings.SplitN(tail, ":", 2)[0], "{{ v|safe|%s }} with the %s %#v renders %s, without safe %s", tail, c.Name, v, with, without)
+		}
+	}
+}
+
 func runKinds(r *eng.Runner, a16 []string) {
+	r.Group("safe-identity", "c17.safeident", "safe applied to 10 values that are not text (numbers, nil, lists, a map, a bool, a pointer): the result is the input, and 10 kind-sensitive filters behind it give what they give without it")
+	for _, n := range []string{"int", "nil", "strings", "false", "float", "map", "intptr", "anys", "uint8", "emptylist"} {
+		r.Do(&SafeIdentCase{Name: n})
+	}
 	r.Group("value-kinds", "c17.kind", "every string of <=2 special symbols handed over as a value marked safe, a *string, a Stringer struct, a pointer to it, a named string type with String(): escape/e (ApplyFilter and template) and safe under autoescape on")
-	for _, k := range []string{"safevalue", "strptr", "stringer", "stringer-ptr", "named-stringer"} {
+	for _, k := range []string{"plain", "safevalue", "strptr", "stringer", "stringer-ptr", "named-stringer"} {
 		enum.Strings(a16, 2, func(s string, _ []int) bool {
 			if utf8.ValidString(s) {
 				r.Do(&KindCase{Kind: k, In: eng.Q(s)})
@@ -548,6 +595,7 @@ func runTagRoute(r *eng.Runner, fs []fp, a16 []string) {
 
 func init() {
 	eng.RegisterCase("c17.kind", func() eng.Case { return &KindCase{} })
+	eng.RegisterCase("c17.safeident", func() eng.Case { return &SafeIdentCase{} })
 	eng.RegisterCase("c17.case", func() eng.Case { return &Case{} })
 	eng.Register(&eng.Check{
 		ID:    "C17",
